@@ -91,6 +91,9 @@ class Battery:
         if p["kind"] == "exp":
             return (self.cap, ve + (v0 - ve) * (1.0 - math.exp(-4.0 * frac)) / (1.0 - math.exp(-4.0)),
                     rs0 * (1.0 + 0.5 * (1.0 - frac)))
+        if p["kind"] == "plateau":                       # flat voltage plateau (LiFePO4-like) while the impedance rises
+            rs = rs0 * (1.0 + 3.0 * (1.0 - frac))
+            return (self.cap, v0 if frac > 0.35 else ve + (v0 - ve) * frac / 0.35, rs)
         rs = rs0 * (1.0 + 3.0 * (1.0 - frac))           # sagging voltage, rising impedance
         ocv = ve + (v0 - ve) * math.sqrt(frac)
         return (self.cap, ocv - min(i * rs, 0.1 * ocv), rs)
@@ -126,7 +129,7 @@ class Battery:
 
 
 def gen_battery(rng, vo, raising=0.0):
-    kind = rng.choice(["linear", "exp", "sag"])
+    kind = rng.choice(["linear", "exp", "sag", "plateau"])
     a = abs(vo)
     v0 = float("%.4g" % (a * rng.uniform(0.85, 1.1)))
     vend = float("%.4g" % (v0 * rng.uniform(0.6, 0.92)))
@@ -150,6 +153,26 @@ def gen_battery(rng, vo, raising=0.0):
         p["raise_at"] = "probe" if rng.random() < 0.15 else rng.randint(0, max(0, min(n, 30)))
         p["raise_cls"] = rng.choice(sorted(EXC))
     return p, cutoff, end
+
+
+def idle_phase_case(rng):
+    """a battery that delivers exactly 0 A in one of the phases (every load off there, no quiescent currents)"""
+    v = gen.sd(rng, 2.5, 12)
+    comps = [{"name": "B", "kind": "source", "args": {"vo": v, "rs": gen.sd(rng, 1e-3, 0.2)}, "parents": []}]
+    names = rng.sample(["sleep", "idle", "tx", "rx", "move"], rng.randint(2, 4))
+    idle = rng.choice(names)
+    par = "B"
+    if rng.random() < 0.5:
+        comps.append({"name": "SW", "kind": "pswitch", "args": {"rs": gen.sd(rng, 1e-3, 0.1)}, "parents": ["B"]})
+        par = "SW"
+    for k in range(rng.randint(1, 3)):
+        kind = rng.choice(["pload", "iload"])
+        key, lo, hi = ("pwr", 1e-2, 0.5) if kind == "pload" else ("ii", 1e-3, 0.2)
+        comps.append({"name": "L%d" % k, "kind": kind, "args": {key: gen.sd(rng, lo, hi)}, "parents": [par],
+                      "pconf": {p: (0.0 if p == idle else gen.sd(rng, lo, hi)) for p in names}})
+    desc = {"name": "idle", "comps": comps, "phases": {p: gen.sd(rng, 1e-1, 1e3) for p in names}}
+    batt, cutoff, end = gen_battery(rng, v, 0.0)
+    return {"desc": desc, "battery": "B", "cutoff": cutoff, "batt": batt, "end": end}
 
 
 def add_phases(rng, desc):
@@ -205,7 +228,9 @@ def run_impl(case, sys_=None):
             return None
     before = source_rows(sys_)
     bat = Battery(case["batt"])
-    df, e = sysdesc.quiet_call(sys_.batt_life, case["battery"], cutoff=case["cutoff"], pfunc=bat.probe, dfunc=bat.deplete)
+    # watchdog: every scripted battery runs out after a bounded number of deplete calls, so batt_life must return
+    df, e = sysdesc.quiet_call_timeout(60, sys_.batt_life, case["battery"], cutoff=case["cutoff"], pfunc=bat.probe,
+                                       dfunc=bat.deplete)
     after = source_rows(sys_)
     log = None
     if df is not None:
@@ -553,6 +578,11 @@ def one(ctx, case, k=0, n_current=6):
         ctx.stats["skipped:build"] += 1
         ctx.case(nontrivial=False)
         return False
+    if obs["outcome"] == "HarnessTimeout":
+        ctx.case(key=[solved.desc_key(case["desc"]), case["battery"], case["cutoff"], sorted(case["batt"].items())], nontrivial=True)
+        ctx.oracle(case, "terminates", "batt_life", {}, {"watchdog_s": 60, "deplete_calls_so_far": len(obs["bat"].dep),
+                                                          "note": "the scripted battery runs out after finitely many deplete calls"})
+        return True
     bat = obs["bat"]
     ctx.case(key=[solved.desc_key(case["desc"]), case["battery"], case["cutoff"], sorted(case["batt"].items())],
              nontrivial=(obs["outcome"] == "ok" and len(bat.dep) >= 3),
@@ -612,6 +642,9 @@ def run(ctx):
     finding_streams(ctx)
     n = ctx.n(100, 5000)
     skipped = 0
+    for k in range(ctx.n(10, 300)):
+        ctx.stats["idle_phase_stream"] += 1
+        one(ctx, idle_phase_case(ctx.rng), k, n_current=ctx.n(6, 10))
     for k in range(n):
         case = gen_case(ctx.rng)
         if not one(ctx, case, k, n_current=ctx.n(6, 10)):
